@@ -768,6 +768,14 @@ pub fn transformer(mode: &str) -> Box<dyn Fn(String) -> e57::Result<String>> {
             let p: Vec<&str> = mode.split(':').collect();
             match p[0] {
                 "app" => Ok(xml + &String::from_utf8(unhex(p[1]).unwrap()).unwrap()),
+                "ins" => {
+                    let pos: usize = p[1].parse().unwrap();
+                    let t = unhex(p[2]).unwrap();
+                    let mut b = xml.into_bytes();
+                    let pos = pos.min(b.len());
+                    b.splice(pos..pos, t);
+                    String::from_utf8(b).map_err(|_| e57::Error::Invalid { desc: "not UTF-8".into(), source: None })
+                }
                 "sub" => {
                     let a = String::from_utf8(unhex(p[1]).unwrap()).unwrap();
                     let b = String::from_utf8(unhex(p[2]).unwrap()).unwrap();
